@@ -12,9 +12,9 @@ and hands the components to `canonSplit`, which models everything between parsin
 `canonParts`); `printSplit` is the serialisation (`urlunsplit`, then the `//` of an empty
 authority is put back).
 
-Code modelled: `ural/canonicalize_url.py` with the four fixes FX-C01-USERBRACKETS (brackets
-in the userinfo are rejected), FX-C01-IPBRACKETS (a bracketed host keeps its brackets),
-FX-C02-EMPTYAUTH (`scheme://` is kept for an empty authority), FX-C02-TRAILINGWS (a host
+Code modelled: `ural/canonicalize_url.py` with the four fixes FX-C01-ca9f3e6 (brackets
+in the userinfo are rejected), FX-C01-feb1ed1 (a bracketed host keeps its brackets),
+FX-C02-f918741 (`scheme://` is kept for an empty authority), FX-C02-16f182c (a host
 ending with white space keeps the slash after it).
 -/
 namespace Ural.Canonicalize
